@@ -102,8 +102,86 @@ def expected_table(case, scale):
     return out
 
 
+def routing_job(case):
+    """(N,n) input addressed by a wildcard: which column drives which node (spec/Paths.tla, RoutingM)"""
+    import numpy as np, warnings
+    from .. import netmodel as nm
+    warnings.filterwarnings('ignore')
+    cs = case['cs']
+    prog = dict(nodes=[dict(kind=k, c=0, a=0, du=0, dv=0) for k in cs['kinds']], edges=[])
+    circ = nm.build(prog, hier=cs['hier'], order=cs['order'])
+    n = len(case['columns'])
+    steps = 3
+    arr = np.stack([np.full(steps, float(2 ** (j + 1))) * np.arange(1, steps + 1) for j in range(n)], axis=1)
+    key = '/'.join(cs['req']['pats'][0] + ['lin', 'u'])
+    outs = {f'o{i + 1}': '/'.join(p + ['lin', 'x']) for i, p in enumerate(case['paths'])}
+    try:
+        res = circ.run(float(steps), 1.0, inputs={key: arr}, outputs=outs, solver='euler', vectorize=True, verbose=False,
+                       clear=True, in_place=False, float_precision='float64')
+    except Exception as e:
+        import traceback
+        return dict(exc=type(e).__name__, msg=str(e)[:300], tb=traceback.format_exc()[-600:])
+    return dict(rows={k: [float(v) for v in res[k].values] for k in outs})
+
+
+def routing_expected(case):
+    """node i starts at 100+i; x' = u; column j carries 2^j * (step+1)"""
+    exp = {}
+    drive = {c['node']: int(c['label'][1]) for c in case['columns']}
+    for i in range(1, len(case['cs']['kinds']) + 1):
+        x = 100.0 + i
+        rows = [x]
+        for k in range(1, 3):
+            x += (2.0 ** drive[i]) * k if i in drive else 0.0
+            rows.append(x)
+        exp[f'o{i}'] = rows
+    return exp
+
+
+def routing(ctx, tier):
+    from .. import tlc
+    sizes = '{3}' if tier == 'quick' else '{3, 4, 5}'
+    hiers = '{0, 1}' if tier == 'quick' else '{0, 1, 2}'
+    expr = f'{{c \\in InputCases({sizes}, {hiers}) : WellFormedCase(c)}}'
+    c = tlc.cfg(constants=dict(Dev=set()), invariants=['ColumnCarriesItsLabel', 'ResolveAgrees', 'Export'])
+    r = tlc.run_tlc('Paths', c, workers=16, defs=dict(Cases=expr), mc_extends=['PathsCases'], timeout=3000)
+    ctx.add_tlc('design:routing', r, '(N,n) input: P (_add_input edges, _group_edges index lists) = M (column i -> i-th resolved node)')
+    if not r['ok']:
+        ctx.spec_violation('routing', r)
+    cv = tlc.cfg(constants=dict(Dev={'SourceIdxPositional'}), invariants=['ColumnCarriesItsLabel'])
+    rv = tlc.run_tlc('Paths', cv, workers=16, defs=dict(Cases='{c \\in InputCases({3}, {0}) : WellFormedCase(c)}'), mc_extends=['PathsCases'])
+    ctx.add_tlc('vacuity:SourceIdxPositional', rv, 'must violate')
+    if rv['violated'] is None:
+        ctx.violation(dict(kind='spec', what='deviation SourceIdxPositional not detected'))
+    cases = [x for x in r['exports'].get('CASE', []) if len(x['columns']) >= 2]
+    import random
+    random.Random(ctx.seed).shuffle(cases)
+    mixed = [x for x in cases if len({x['cs']['kinds'][c['node'] - 1] for c in x['columns']}) > 1]
+    rest = [x for x in cases if x not in mixed]
+    cap = 250 if tier == 'quick' else 4000
+    sel = mixed[:int(cap * 0.7)] + rest[:cap - min(len(mixed), int(cap * 0.7))]
+    ctx.notes['routing_cases_enumerated'] = len(cases)
+    outs = run_cases(routing_job, sel, timeout=300)
+    verd = {}
+    for cse, o in zip(sel, outs):
+        if 'harness_error' in o:
+            raise RuntimeError(f'replay failed: {o}')
+        ctx.replayed += 1
+        ctx.case(key=['routing', cse['cs']], nontrivial=cse in mixed)
+        exp = routing_expected(cse)
+        if o.get('rows') == exp:
+            res = 'pass'
+        else:
+            ctx.violation(dict(kind='conformance', what='(N,n) input: column i must drive the i-th addressed node',
+                               case=dict(routing=cse), observed=o, expected=exp))
+            res = 'violation'
+        verd[res] = verd.get(res, 0) + 1
+    ctx.notes['routing_verdicts'] = verd
+
+
 def run(ctx):
     tier = ctx.tier
+    routing(ctx, tier)
     ctx.rule = ('TLC enumerates input-driven integrator models (input on one node, different inputs on two merged nodes, one '
                 'input broadcast to both; with and without converging edges) x length x sampling x solver x vectorize; each '
                 'case is run with the input given as (N,), (N,1), (N,n) or broadcast 1-D array and compared exactly; the '
